@@ -209,3 +209,29 @@ Example C16_query_eq_reference_nonvacuous :
     process_one_subset (x_attrs s) ex16_wlabels 5 nodes ex16_p2 = Ok [VIdx 9] /\
     eval_json ex16_wlabels (render_nodes (x_attrs s) (fun _ => false) ex16_vals 2 nodes) (p_comps ex16_p2) = Ok [VIdx 9].
 Proof. eexists; eexists. split; [vm_compute; reflexivity|]. vm_compute. repeat split; reflexivity. Qed.
+
+(* ==== fuel ================================================================================ *)
+From PBK Require Import QueryFuel.
+
+(* fuel monotonicity, for EVERY path (descendant steps included): once the model returns
+   anything but EFuel — an Ok result or a Python error class — more fuel returns the same *)
+Theorem C16_fuel_monotone : forall attrs labels k k' nodes p,
+  (k <= k')%nat -> process_one_subset attrs labels k nodes p <> Err EFuel ->
+  process_one_subset attrs labels k' nodes p = process_one_subset attrs labels k nodes p.
+Proof. exact process_one_subset_fuel_mono. Qed.
+Print Assumptions C16_fuel_monotone.
+
+Theorem C16_filter_fuel_monotone : forall attrs labels k k' n cs,
+  (k <= k')%nat -> filter_sub attrs labels k n cs <> Err EFuel ->
+  filter_sub attrs labels k' n cs = filter_sub attrs labels k n cs.
+Proof. exact filter_sub_fuel_mono. Qed.
+Print Assumptions C16_filter_fuel_monotone.
+
+(* non-vacuity, on a descendant path: "> 033007" over ex16_nodes needs 7 units of fuel *)
+Example C16_fuel_monotone_nonvacuous :
+  let p := mkPath None [mkComp ch_gt (id6 33007) slice_all] in
+  process_one_subset ex16_attrs ex16_labels 6 ex16_nodes p = Err EFuel /\
+  process_one_subset ex16_attrs ex16_labels 7 ex16_nodes p <> Err EFuel /\
+  process_one_subset ex16_attrs ex16_labels 7 ex16_nodes p =
+    Ok [VList [VList [VIdx 10; VIdx 11; VIdx 10]; VList [VIdx 10; VIdx 11]]].
+Proof. vm_compute. repeat split; try reflexivity. discriminate. Qed.
